@@ -593,6 +593,9 @@ impl<'a> Ref<'a> {
                 self.gosub.push(pc + 1);
                 Go::To(self.label(&n))
             }
+            // only a GOSUB of the running procedure can be answered (37cc5db): those pending in the callers are
+            // below the height recorded at the call
+            L::Return(_) if self.gosub.len() <= self.frames.last().map(|f| f.gosub_mark).unwrap_or(0) => return Err(3),
             L::Return(ol) => match self.gosub.pop() {
                 None => return Err(3),
                 Some(r) => match ol {
